@@ -11,7 +11,7 @@ done
 python3-vt - <<'PY'
 import json, jsonschema, glob
 sch = json.load(open('/root/.vp/EVIDENCE.schema.json'))
-for f in sorted(glob.glob('evidence/*.json')):
+for f in sorted(f for f in glob.glob('evidence/*.json') if not f.endswith('.partial.json')):
     d = json.load(open(f)); jsonschema.validate(d, sch)
     c = d['coverage']; assert c['obligations'] == c['discharged'], (f, c['obligations'], c['discharged'])
 print('evidence valid')
